@@ -117,6 +117,17 @@ func (s *Schedule) Delete(jobConfig *execution.JobConfig) error {
 	return nil
 }
 
+// Has returns true if the JobConfig currently has a next scheduled time in the
+// internal heap.
+func (s *Schedule) Has(jobConfig *execution.JobConfig) bool {
+	name, err := cache.MetaNamespaceKeyFunc(jobConfig)
+	if err != nil {
+		return false
+	}
+	_, ok := s.jobConfigs.Search(name)
+	return ok
+}
+
 // Bump will set the JobConfig's next scheduled time in the internal heap,
 // relative to but after popTime. If the JobConfig is in the heap previously,
 // it will be updated.
